@@ -25,6 +25,7 @@ char g_in_s[LMAX + 1]; size_t g_in_len;
 
 biguint g_in_value; int g_in_suffix_type, g_in_unsigned, g_in_dec, g_in_int_bit, g_in_long_bit;
 static _Bool fits(biguint v, int bits, _Bool uns) { return uns ? (bits >= 64 || v <= ((1ULL << bits) - 1)) : (v <= ((1ULL << (bits - 1)) - 1)); }
+#ifdef WITH_BLOCK
 void h_littype(void) {
     struct Platform pl; pl.int_bit = nondet_uchar(); pl.long_bit = nondet_uchar(); pl.long_long_bit = 64;
     __CPROVER_assume((pl.int_bit == 16 || pl.int_bit == 32) && (pl.long_bit == 32 || pl.long_bit == 64) && pl.long_bit >= pl.int_bit);
@@ -45,6 +46,7 @@ void h_littype(void) {
     __CPROVER_assert(type == wt, "the literal has the first type of the C11 6.4.4.1p5 list that can represent its value");
     __CPROVER_assert((sign == Sign_UNSIGNED) == wu, "signedness of the literal's type follows the same list");
 }
+#endif
 
 /* whole literal typing, from the spelling: suffix scan + C11 6.4.4.1p5 table; the value is an arbitrary oracle result of toBigUNumber */
 void h_full(void) {
@@ -76,6 +78,7 @@ void h_full(void) {
     if (!found) return;
     __CPROVER_assert(type == wt && (sign == Sign_UNSIGNED) == wu, "the literal's type and signedness are those of C11 6.4.4.1p5 for its base, suffix and value");
 }
+#ifdef WITH_BLOCK
 void h_cover(void) {
     struct Platform pl; pl.int_bit = 32; pl.long_bit = 64; pl.long_long_bit = 64; enum VType type = VType_INT; enum Sign sign = Sign_SIGNED;
     literal_type_block(&type, &sign, 0, 0, nondet_biguint(), &pl);
@@ -83,6 +86,7 @@ void h_cover(void) {
     __CPROVER_assert(!(type == VType_LONG && sign == Sign_SIGNED), "COVER: a hex literal typed long");
     __CPROVER_assert(!(type == VType_LONG && sign == Sign_UNSIGNED), "COVER: a hex literal typed unsigned long");
 }
+#endif
 '''
 
 REPLAY_CPP = r'''
@@ -128,7 +132,8 @@ def build(ctx):
     ], ID + ".block"); n += k
     if re.search(r'MathLib|tokStr|mSettings', extract.mask(t)):
         raise extract.ExtractError("K36: part of the literal typing block was not lowered: %r" % t.strip()[:300])
-    out.append("void literal_type_block(enum VType *type_p, enum Sign *sign_p, const _Bool unsignedSuffix, const _Bool is_dec, const biguint value, const struct Platform *platform)\n{\n%s\n}\n" % extract.strip_comments(t))
+    out.append("#ifdef WITH_BLOCK\nvoid literal_type_block(enum VType *type_p, enum Sign *sign_p, const _Bool unsignedSuffix, const _Bool is_dec, const biguint value, const struct Platform *platform)\n{\n%s\n}\n" % extract.strip_comments(t))
+    out.append("#endif\n")
 
     # whole literal typing from the spelling (recognisers from K07, real code)
     rec = k07_literals.recognisers(kb)
@@ -140,7 +145,7 @@ def build(ctx):
         (r'\(tokStr\.find_last_of\("uU"\)\s*!=\s*std::string::npos\)', 'vstr_has_any_n(tokStr, tokStr_len, "uU")', 1, 1),
         (r'const biguint value\s*=\s*MathLib::toBigUNumber\(tokStr,\s*tok\)\s*;', 'const biguint value = ext_value;', 1, 1),
         (r'\btokStr\.size\(\)', 'tokStr_len', 1),
-        (r'\bMathLib::(isDec|isIntHex|isOct|isBin)\(tokStr\)', r'\1(tokStr, tokStr_len)', 2),
+        (r'\bMathLib::(isDec|isIntHex|isOct|isBin)\(tokStr\)', r'\1(tokStr, tokStr_len)', 1),
         (r'\bmSettings\.platform\.type\s*!=\s*Platform::Type::Unspecified', 'platform_specified', 1, 1),
         (r'\bmSettings\.platform\.(isIntValue|isLongValue|isLongLongValue)\(', r'\1_u(platform, ', 5),
     ], ID + ".full"); n += k
@@ -152,10 +157,10 @@ def build(ctx):
     text = "".join(out)
     extract.residue_scan(text, ID)
     kb.ctext = "#ifndef LMAX\n#define LMAX 6\n#endif\n" + _common.BASE + rec.replace(_common.BASE, "", 1) + text.replace(_common.BASE, "", 1) + full_c + HARNESS
-    kb.job("type", "h_littype", unwind=5, note="loop-free region (the 3-entry reference loop is unwound): complete in the value (2^64), suffix, base and the widths 16/32 (int), 32/64 (long), 64 (long long)")
+    kb.job("type", "h_littype", unwind=5, defines=["WITH_BLOCK", "NOCONTRACT"], note="loop-free region (the 3-entry reference loop is unwound): complete in the value (2^64), suffix, base and the widths 16/32 (int), 32/64 (long), 64 (long long)")
     kb.job("full", "h_full", kind="bounded", unwind=9, defines=["NOCONTRACT", "LMAX=6"], timeout=600,
            note="integer literal spellings of length <= 6 (all four bases, u/l/ll suffixes), value arbitrary (oracle for toBigUNumber), widths as above")
-    kb.job("cover", "h_cover", kind="cover", unwind=9, defines=["NOCONTRACT"])
+    kb.job("cover", "h_cover", kind="cover", unwind=9, defines=["NOCONTRACT", "WITH_BLOCK"])
     kb.assumptions += ["region interface: (type and sign from the suffix scan, u-suffix flag, decimal flag, value, platform widths); the suffix scan and MathLib::toBigUNumber are outside",
                        "a decimal literal that does not fit long long has no type in C and is not constrained",
                        "Platform members *_bit > 0"]
